@@ -23,6 +23,100 @@ def writes_state(prog, f):
     return None
 
 
+def countdown_history_rule(prog, run, rid):
+    """The out-of-memory countdown decided at the level of the C interface, whatever file-level variables hold it: histories of
+    set_out_of_memory_countdown(n) / malloc / malloc_count_reset / set_not_out_of_memory are folded call by call, the file's variables
+    carried from one fold to the next (initial values from their initialisers), against the reference: after countdown(n) the n-th
+    allocation and every later one fail, switching off makes all succeed again, resetting the statistics counter changes nothing."""
+    ml = prog.fn("cpputest_malloc_location")
+    api = {"cd": prog.fn("cpputest_malloc_set_out_of_memory_countdown"), "m": ml, "not": prog.fn("cpputest_malloc_set_not_out_of_memory"), "reset": prog.fn("cpputest_malloc_count_reset"),
+           "out": prog.fn("cpputest_malloc_set_out_of_memory")}
+    for g in api.values():
+        run.analysed(g)
+
+    def const_of(n):
+        while isinstance(n, dict):
+            if "cv" in n:
+                return int(n["cv"])
+            if n.get("k") == "IntegerLiteral":
+                return int(n["v"])
+            if n.get("k") in ("CXXNullPtrLiteralExpr", "GNUNullExpr"):
+                return 0
+            if n.get("k") == "UnaryOperator" and n.get("op") == "-":
+                v_ = const_of(n["c"][0])
+                return None if v_ is None else -v_
+            n = n["c"][0] if n.get("c") else None
+        return None
+    gnames, init = set(), {}
+    for qn, gs in prog.globals.items():
+        for g in gs:
+            if g.get("file") == ml.file and g.get("def"):
+                gnames.add(qn)
+                v_ = const_of(g.get("init")) if g.get("init") is not None else 0
+                if v_ is not None:
+                    init[qn] = v_
+    NULLA_ = 7900
+    HIST = [[("cd", 2), "m", "m", "m", "m"], [("cd", 2), "m", "reset", "m", "m"], [("cd", 3), "reset", "m", "m", "reset", "m", "m"], [("cd", 1), "m", "not", "m", "m"], [("cd", 0), "m", "not", "m"],
+            ["m", ("cd", 3), "m", "m", "not", "m", "m", "m"], [("cd", 2), "not", "m", "m", "m"], [("cd", 1), "m", "m", "not", ("cd", 2), "m", "m", "not", "m"],
+            # the switches themselves: the null allocator while switched on, the allocator in force BEFORE THE FIRST switch put back
+            ["out", "m", "not", "m"], ["out", "out", "m", "not", "m"], ["out", "not", "out", "not", "m"], ["out", "out", "out", "not", "out", "m", "not", "m"], [("cd", 5), "m", "out", "m", "not", "m", "m", "m", "m", "m"],
+            [("cd", -1), "m", "m"], [("cd", 7), "m", "m"]]
+    DEFAULT_ = 7200
+
+    def saved_at_every_not(hist):
+        left, forced = None, False
+        for op in hist:
+            name, arg = (op if isinstance(op, tuple) else (op, None))
+            if name == "cd":
+                left = arg if arg >= 0 else None
+            elif name == "out":
+                forced = True
+            elif name == "m" and left is not None and left > 0:
+                left -= 1
+            elif name == "not":
+                if not (forced or left == 0):
+                    return False
+                left, forced = None, False
+        return True
+    # (A) the allocator in force is the default one; (B) a custom allocator is in force - only histories in which every switching-off
+    # follows a switching-on (nothing is saved otherwise, and setCurrentMallocAllocator(NULL) means "the default one")
+    for hist, ORIG_ in [(h_, DEFAULT_) for h_ in HIST] + [(h_, 7100) for h_ in HIST if saved_at_every_not(h_)]:
+        state, cell = dict(init), {"cur": ORIG_}
+        hooks = {"getCurrentMallocAllocator": lambda *a_: cell["cur"], "setCurrentMallocAllocator": lambda v, *a_: (cell.__setitem__("cur", v if v else DEFAULT_), 0)[1],
+                 "NullUnknownAllocator::defaultAllocator": lambda *a_: NULLA_, "cpputest_malloc_location_with_leak_detection": lambda *a_: 0 if cell["cur"] == NULLA_ else 70000}
+        got, want, left, forced = [], [], None, False
+        try:
+            for op in hist:
+                name, arg = (op if isinstance(op, tuple) else (op, None))
+                f = api[name]
+                env = dict(state)
+                env.update({q["name"]: v_ for q, v_ in zip(f.params, ([arg] if name == "cd" else [24, 111000, 77]))})
+                ev = Evaluator(prog, f, env=env, calls=hooks)
+                ev.optional_stubs = set(hooks)
+                ev.inline = {g.qn for g in prog.functions.values() if g.file == ml.file and not g.cls} - set(hooks) - {f.qn}
+                ev.run_blocks(f.entry, max_steps=1500)
+                state = {k_: v_ for k_, v_ in ev.env.items() if k_.split(".")[0].split("[")[0] in gnames}
+                if name == "cd":
+                    left = arg if arg >= 0 else None
+                elif name == "not":
+                    left, forced = None, False
+                elif name == "out":
+                    forced = True
+                elif name == "m":
+                    if left is not None and left > 0:
+                        left -= 1
+                    want.append(0 if (left == 0 or forced) else 70000)
+                    got.append(getattr(ev, "ret", None))
+                # the allocator in force after every step: the null allocator exactly while out of memory, else the original one
+                want.append("null" if (left == 0 or forced) else "orig")
+                got.append("null" if cell["cur"] == NULLA_ else ("orig" if cell["cur"] == ORIG_ else cell["cur"]))
+        except Unknown as u:
+            raise AnalysisBroken("C15.%s: the history %s cannot be folded at the level of the C interface: %s" % (rid, hist, u))
+        show = lambda l_: ["NULL" if x == 0 else ("block" if x == 70000 else str(x)) for x in l_ if x not in ("null", "orig")] + ["allocator: " + ">".join(str(x) for x in l_ if x in ("null", "orig") or (isinstance(x, int) and x not in (0, 70000)))]
+        run.ob(rid, "history %s folded call by call with %s allocator in force: the allocations answer %s" % ([o if isinstance(o, str) else "%s(%d)" % o for o in hist], "the default" if ORIG_ == DEFAULT_ else "a custom", show(want)), ml.site, got == want, witness=show(got),
+               what="" if got == want else "the allocations answer %s, the countdown designates %s" % (show(got), show(want)))
+
+
 def check(ctx, run):
     prog = ctx.program()
     run.assume("allocations reach FailableMemoryAllocator::alloc_memory once each (routing is C04.R8)")
@@ -197,26 +291,6 @@ def check(ctx, run):
     # ---------------- R4 ----------------------------------------------------
     ml = prog.fn("cpputest_malloc_location")
     run.analysed(ml)
-    pn_ = [q["name"] for q in ml.params]
-    for c0 in (-5, -1, 0, 1, 2, 7):
-        log = []
-        ev = Evaluator(prog, ml, env={"malloc_out_of_memory_counter": c0, "malloc_count": 10, pn_[0]: 24, pn_[1]: 111000, pn_[2]: 77}, calls={
-            "cpputest_malloc_set_out_of_memory": lambda *a_: (log.append("out-of-memory"), 0)[1],
-            "cpputest_malloc_location_with_leak_detection": lambda *a_: (log.append(("allocate", a_)), 4242)[1]})
-        try:
-            ev.run_blocks(ml.entry, max_steps=300)
-            after, r = ev.env.get("malloc_out_of_memory_counter"), getattr(ev, "ret", None)
-        except Unknown as u:
-            run.broke("C15.R4: cpputest_malloc_location cannot be folded: %s" % u)
-            continue
-        if c0 <= 0:
-            want_after, fires = c0, 0
-        else:
-            want_after, fires = c0 - 1, 1 if c0 - 1 == 0 else 0
-        want_log = (["out-of-memory"] if fires else []) + [("allocate", (24, 111000, 77))]
-        ok = after == want_after and log == want_log and r == 4242
-        run.ob("R4", "malloc with the countdown at %d: counter becomes %d, the null allocator is %sinstalled before the allocation is made with the caller's arguments" % (c0, want_after, "" if fires else "not "), ml.site, ok,
-               witness={"counter_after": after, "log": [str(x) for x in log], "returns": r})
     from cpv.graph import callers_of
     cl = sorted({f.qn for f, c in callers_of(prog, "cpputest_malloc_location_with_leak_detection") if f.file.startswith("src/")})
     run.ob("R4", "only cpputest_malloc_location reaches the uncounted allocation entry (calloc/strdup/malloc all tick the countdown)", UNIT_C + ":cpputest_malloc_location_with_leak_detection",
@@ -226,56 +300,7 @@ def check(ctx, run):
         cnt = [len([c for c in path_calls(prog, f, p) if prog.callee_name(f, c) == "cpputest_malloc_location"]) for p in enumerate_paths(f)]
         ok = bool(cnt) and all(c <= 1 for c in cnt) and any(c == 1 for c in cnt)
         run.ob("R4", "%s allocates through cpputest_malloc_location" % fn_, f.site, ok, witness=cnt)
-    so = prog.fn("cpputest_malloc_set_out_of_memory")
-    sn = prog.fn("cpputest_malloc_set_not_out_of_memory")
-    run.analysed(so)
-    run.analysed(sn)
-    ORIG, NULLA = 4000, 9999
-
-    def switch_sequence(ops, counter0=5):
-        """the two switches folded in sequence on a model of the current malloc allocator; file-level state is carried over"""
-        state = {"cur": ORIG}
-        glob = {"originalAllocator": 0, "malloc_out_of_memory_counter": counter0}
-        hooks = {"getCurrentMallocAllocator": lambda *a_: state["cur"], "setCurrentMallocAllocator": lambda v, *a_: (state.__setitem__("cur", v), 0)[1],
-                 "NullUnknownAllocator::defaultAllocator": lambda *a_: NULLA}
-        trace_ = []
-        for op in ops:
-            f = so if op == "out" else sn
-            ev = Evaluator(prog, f, env=dict(glob), calls=hooks)
-            ev.run_blocks(f.entry, max_steps=300)
-            glob = {k_: ev.env.get(k_) for k_ in glob}
-            trace_.append((op, state["cur"], glob["originalAllocator"], glob["malloc_out_of_memory_counter"]))
-        return trace_
-    try:
-        for ops in (("out",), ("out", "out"), ("out", "not"), ("out", "out", "not"), ("out", "not", "out", "not"), ("out", "out", "out", "not", "out")):
-            tr_ = switch_sequence(ops)
-            why = ""
-            for op, cur, saved, counter in tr_:
-                if op == "out" and (cur != NULLA or saved != ORIG):
-                    why = why or "after set_out_of_memory the current allocator is %s and the saved one %s; expected the null allocator and the allocator in force before the first switch (%d)" % (cur, saved, ORIG)
-                if op == "not" and (cur != ORIG or saved != 0 or counter != -1):
-                    why = why or "after set_not_out_of_memory the current allocator is %s, the saved pointer %s, the countdown %s; expected the original allocator (%d), NULL and no countdown" % (cur, saved, counter, ORIG)
-            run.ob("R4", "out-of-memory switches folded in sequence %s: the null allocator while switched on, the ORIGINAL allocator (saved once) restored and countdown cleared when switched off" % (list(ops),), so.site, not why, witness=[list(x) for x in tr_], what=why)
-        # a countdown that has not run out yet (nothing was switched, nothing is saved) is cancelled by switching off
-        for c0 in (1, 5):
-            tr_ = switch_sequence(("not",), counter0=c0)
-            ok = tr_[-1][3] == -1
-            run.ob("R4", "set_not_out_of_memory folded with a countdown of %d still pending and no allocator replaced: the countdown is cancelled" % c0, sn.site, ok, witness=[list(x) for x in tr_],
-                   what="" if ok else "the countdown stays at %s: a later undesignated allocation still fails" % (tr_[-1][3],))
-    except Unknown as u:
-        raise AnalysisBroken("C15.R4: the out-of-memory switches cannot be folded: %s" % u)
-    sc = prog.fn("cpputest_malloc_set_out_of_memory_countdown")
-    run.analysed(sc)
-    for c0 in (0, 1, 3):
-        ev = Evaluator(prog, sc, env={sc.params[0]["name"]: c0, "malloc_out_of_memory_counter": -1})
-        fired = []
-        ev.calls["cpputest_malloc_set_out_of_memory"] = lambda fired=fired: (fired.append(1), 0)[1]
-        try:
-            ev.run_blocks(sc.entry)
-            got = (ev.env.get("malloc_out_of_memory_counter"), len(fired))
-        except Unknown as u:
-            got = "unknown: %s" % u
-        run.ob("R4", "set_out_of_memory_countdown(%d)" % c0, sc.site, got == (c0, 1 if c0 == 0 else 0), witness={"counter, switched": got})
+    countdown_history_rule(prog, run, "R4")
     nul = prog.fn("NullUnknownAllocator::alloc_memory")
     rets = getter_fold(prog, nul, "this", token=600)
     run.ob("R4", "the null allocator returns NULL (folded)", nul.site, rets == 0, witness=rets)
